@@ -21,7 +21,18 @@ def gen_for(pid, rng, tier):
     maxdim = 4 if tier == "quick" else 8
     nsteps = (3, 12) if tier == "quick" else (3, 40)
     if pid in ("C01",):
-        spec = solvergen.gen_spec(rng, maxdim=maxdim, nsteps=nsteps, flavour="steps" if k < 0.8 else "solve")
+        spec = solvergen.gen_spec(rng, maxdim=maxdim, nsteps=nsteps, flavour="steps" if k < 0.65 else ("solve" if k < 0.8 else "ops"))
+        if spec.get("flavour") == "ops":
+            # the penalty is changed between iterations of a LIVE solver (SetPenalty, or penalty= handed to Step)
+            ops = [("step",)] * rng.randint(2, 5)
+            for _ in range(rng.randint(1, 2)):
+                pn = solvergen.gen_penalty(rng, spec["dim"]) if rng.random() < 0.8 else None
+                ops.append(("step", {"penalty": pn}) if rng.random() < 0.4 else ("setpenalty", pn))
+                ops += [("step",)] * rng.randint(2, 6)
+            spec["ops"] = ops
+            spec["penalty_switch"] = True
+            if rng.random() < 0.7:
+                spec["limits"] = None
     elif pid == "C02":
         spec = solvergen.gen_spec(rng, maxdim=maxdim, nsteps=nsteps, flavour="steps" if k < 0.5 else "ops")
         if not spec.get("ranges") and rng.random() < 0.8:
@@ -53,7 +64,9 @@ def gen_for(pid, rng, tier):
         spec = solvergen.gen_spec(rng, maxdim=maxdim, nsteps=nsteps, flavour=rng.choice(["ops", "ops", "steps", "solve"]))
         if rng.random() < 0.5:
             spec["limits"] = (rng.choice([None, 0, 1, 2, 3, 5]), rng.choice([None, 0, 1, 5, 20, 50]))
-    if spec.get("flavour") == "ops":
+        if rng.random() < 0.3:
+            spec["evalmon"] = False         # the default Null evaluation monitor
+    if spec.get("flavour") == "ops" and not spec.get("penalty_switch"):
         # the configuration may have been completed above: regenerate the op sequence so that the hypotheses of C03
         # (constraints compatible with the box in force) hold along it
         spec["ops"] = solvergen.gen_ops(rng, spec, len(spec["ops"]))
@@ -164,6 +177,13 @@ def _ens_cost(x):
     return y
 
 
+_ENS_PEN = [None]
+
+
+def _ens_penalty(x):
+    return dsl.ev(_ENS_PEN[0], [float(v) for v in np.ravel(x)])
+
+
 def ensemble_case(rng):
     """C01 for ensembles of solvers: the reported best is an evaluated point carrying its own cost"""
     common.import_mystic()
@@ -183,13 +203,21 @@ def ensemble_case(rng):
     else:
         s = BuckshotSolver(dim, npts=rng.randint(2, 4))
     cls = {"NM": NelderMeadSimplexSolver, "Powell": PowellDirectionalSolver, "DE": DifferentialEvolutionSolver, "DE2": DifferentialEvolutionSolver2}[nested]
+    instance = nested in ("DE", "DE2") or rng.random() < 0.5
     if nested in ("DE", "DE2"):
         s.SetNestedSolver(cls(dim, rng.randint(4, 6)))
+    elif instance:
+        s.SetNestedSolver(cls(dim))          # a configured solver INSTANCE (without an objective of its own)
     else:
         s.SetNestedSolver(cls)
+    pen = solvergen.gen_penalty(rng, dim) if rng.random() < 0.5 else None
+    _ENS_PEN[0] = pen
+    if pen is not None:
+        s.SetPenalty(_ens_penalty)           # the ensemble's penalty must reach every member
     s.SetStrictRanges(lo, hi)
     s.SetEvaluationLimits(generations=rng.choice([2, 3, 5, 8]))
-    case = {"ensemble": kind, "nested": nested, "dim": dim, "cost": dsl.expr_sexp(cost_spec[1]), "lo": lo, "hi": hi}
+    case = {"ensemble": kind, "nested": nested, "nested_is_instance": instance, "dim": dim, "cost": dsl.expr_sexp(cost_spec[1]),
+            "penalty": dsl.expr_sexp(pen) if pen is not None else None, "lo": lo, "hi": hi}
     try:
         s.Solve(_ens_cost, VTR(1e-8))
     except Exception as exc:
@@ -201,10 +229,10 @@ def ensemble_case(rng):
     if not any(common.same_vec(best, c[0]) for c in _ENS_CALLS):
         out.append(("ensemble/%s-%s/best-not-evaluated" % (kind, nested), "ensemble reports best %r that was never passed to the cost" % (best,), case))
     else:
-        want = dsl.ev(cost_spec[1], best)
+        want = dsl.ev(cost_spec[1], best) + (dsl.ev(pen, best) if pen is not None else 0.0)
         if not (want == e):
-            out.append(("ensemble/%s-%s/energy-mismatch" % (kind, nested), "ensemble reports energy %r but cost(best) = %r" % (e, want), case))
-    return out, "%s:%s" % (kind, nested)
+            out.append(("ensemble/%s-%s/energy-mismatch" % (kind, nested), "ensemble reports energy %r but cost(best) + penalty(best) = %r" % (e, want), case))
+    return out, "%s:%s%s%s" % (kind, nested, ":instance" if instance else "", ":pen" if pen is not None else "")
 
 
 def initial_points_case(rng):
@@ -317,7 +345,7 @@ def run_shard(pid, seed, shard, ncases, tier, extra):
                 findings.append(Finding("monitor", key, what, case))
             if req is not None:
                 wlines.append(req)
-        if pid == "C01" and k % 3 == 0:
+        if pid == "C01" and k % 2 == 0:
             res, tag = ensemble_case(rng)
             hist["ensemble:" + tag] = hist.get("ensemble:" + tag, 0) + 1
             for key, what, case in res:
